@@ -141,7 +141,7 @@ class DiskProp(object):
             for _ in range(rng.weighted([(1, 2), (2, 4), (3, 4), (4, 2), (6, 1), (8, 1)])):
                 ops.append({"op": "tool_add", "file": fd()})
                 if rng.chance(0.25):
-                    ops.append({"op": "restart"})
+                    ops.append({"op": rng.choice(["restart", "live_list"])})
         elif profile == "peer_only":
             for _ in range(rng.randint(1, 6)):
                 ops.append(peer_save())
@@ -150,7 +150,7 @@ class DiskProp(object):
             ops.append({"op": rng.choice(["restart", "cli_list"])})
         elif profile == "mixed":
             n = rng.weighted([(2, 2), (3, 4), (4, 4), (6, 3), (9, 1)])
-            weights = [("tool_add", 5), ("peer_save", 4), ("peer_kill", 2), ("restart", 2), ("cli_list", 1), ("cli_append", 1)]
+            weights = [("tool_add", 5), ("peer_save", 4), ("peer_kill", 2), ("restart", 2), ("cli_list", 1), ("cli_append", 1), ("live_list", 1)]
             weights = [(k, w) for k, w in weights if rng.chance(0.85)] or [("tool_add", 1)]
             for _ in range(n):
                 kind = rng.weighted(weights)
@@ -182,7 +182,8 @@ class DiskProp(object):
             while budget_gran > -3 and count < 80:
                 if style == "small":
                     f = fd(max_granules=1, big_ok=False)
-                    f["len"] = rng.choice([0, 1, 100, 2000, 2293, 2294])
+                    ov = GF.disk_stream_overhead(f["ftype"], f["dtype"])
+                    f["len"] = rng.choice([0, 1, 100, 2000] + [max(0, 2304 - ov + d) for d in (-2, -1, 0, 1)])
                 elif style == "large":
                     f = fd(max_granules=28, big_ok=True)
                     f["len"] = max(f["len"], rng.randint(10000, 65535))
@@ -261,7 +262,13 @@ class DiskProp(object):
                         res.stats["fault:peer_kill"] += 1
                         slot = live[op["index"] % len(live)]
                         img = bytearray(st["img"])
-                        RD.kill(img, slot)
+                        try:
+                            RD.kill(img, slot)
+                        except RD.DiskError:
+                            # the peer cannot follow this entry's chain: the image is already malformed, which is
+                            # C08's (fsck) and C07's (listing) business; the accounting check just skips the op
+                            res.stats["peer_op_skipped_on_malformed_image"] += 1
+                            continue
                         st["img"] = bytes(img)
                         del st["model"][slot]
                         st["cont"] = None
@@ -273,6 +280,17 @@ class DiskProp(object):
                     st["cont"] = None
                     st["restarted"] = True
                     w.log.add("RESTART", hashlib.sha256(st["img"]).hexdigest()[:16])
+                elif kind == "live_list":
+                    # list on the live container object (no restart), then keep writing to the same object
+                    cont = container()
+                    listed, err = w.call(cont.list_files)
+                    if self.judge == "C07" and err is not None:
+                        res.violate("LIST-ERROR:" + type(err).__name__, "list_files on the live container raised %s: %s" % (type(err).__name__, str(err)[:100]), k)
+                    elif self.judge == "C07":
+                        self.compare_listing(res, [from_coco(cf) for cf in listed], model_list(), k, "LIVE-")
+                    if bytes(bytearray(cont.get_buffer())) != st["img"]:
+                        res.violate("LIST-MODIFIED-IMAGE", "listing changed the image bytes", k)
+                    st["tool_ops"] += 1 if st["model"] else 0
                 elif kind == "cli_list":
                     self.cli_list(res, w, st, k)
                     st["tool_ops"] += 1 if st["model"] else 0
@@ -435,23 +453,26 @@ class DiskProp(object):
             res.violate("LIST-ERROR:" + type(err).__name__, "list_files raised %s: %s (model: %s)" % (
                 type(err).__name__, str(err)[:100], "; ".join(RD.describe(m) for m in model)[:300]), k)
             return
-        got = [from_coco(cf) for cf in listed]
+        self.compare_listing(res, [from_coco(cf) for cf in listed], model, k, "")
+
+    @staticmethod
+    def compare_listing(res, got, model, k, tag):
         if len(got) != len(model):
-            res.violate("LIST-COUNT", "listing has %d files, model has %d" % (len(got), len(model)), k)
+            res.violate(tag + "LIST-COUNT", "listing has %d files, model has %d" % (len(got), len(model)), k)
             return
         for idx, (g, m) in enumerate(zip(got, model)):
             if RD.norm_name(g["name"]) != RD.norm_name(m["name"]):
-                res.violate("LIST-FIELD:name", "file %d name %r, expected %r" % (idx, g["name"], m["name"]), k)
+                res.violate(tag + "LIST-FIELD:name", "file %d name %r, expected %r" % (idx, g["name"], m["name"]), k)
             if RD.norm_ext(g["ext"]) != RD.norm_ext(m.get("ext", "")):
-                res.violate("LIST-FIELD:ext", "file %d extension %r, expected %r" % (idx, g["ext"], m.get("ext", "")), k)
+                res.violate(tag + "LIST-FIELD:ext", "file %d extension %r, expected %r" % (idx, g["ext"], m.get("ext", "")), k)
             if g["ftype"] != m["ftype"]:
-                res.violate("LIST-FIELD:ftype", "file %d type %r, expected %r" % (idx, g["ftype"], m["ftype"]), k)
+                res.violate(tag + "LIST-FIELD:ftype", "file %d type %r, expected %r" % (idx, g["ftype"], m["ftype"]), k)
             if g["dtype"] != m["dtype"]:
-                res.violate("LIST-FIELD:ascii", "file %d ASCII flag %r, expected %r" % (idx, g["dtype"], m["dtype"]), k)
+                res.violate(tag + "LIST-FIELD:ascii", "file %d ASCII flag %r, expected %r" % (idx, g["dtype"], m["dtype"]), k)
             if m["ftype"] == 2 and (g["load"] != m["load"] or g["exec"] != m["exec"]):
-                res.violate("LIST-FIELD:addr", "file %d load/exec %r/%r, expected %04X/%04X" % (idx, g["load"], g["exec"], m["load"], m["exec"]), k)
+                res.violate(tag + "LIST-FIELD:addr", "file %d load/exec %r/%r, expected %04X/%04X" % (idx, g["load"], g["exec"], m["load"], m["exec"]), k)
             if g["data"] != bytes(m["data"]):
-                res.violate("LIST-FIELD:data", "file %d (%s) data differs: %d bytes listed, %d stored" % (idx, RD.describe(m), len(g["data"]), len(m["data"])), k)
+                res.violate(tag + "LIST-FIELD:data", "file %d (%s) data differs: %d bytes listed, %d stored" % (idx, RD.describe(m), len(g["data"]), len(m["data"])), k)
 
     def cli_list(self, res, w, st, k):
         w.put("d.dsk", st["img"], who="SETUP")
